@@ -61,3 +61,110 @@ Theorem C16_refuted_value_file_renamed_separately :
 Proof. exact refuted_value_file_renamed_separately. Qed.
 Goal True. idtac "ASSUMPTIONS-OF C16_refuted_value_file_renamed_separately". Abort.
 Print Assumptions C16_refuted_value_file_renamed_separately.
+
+(* (c) At most one compaction is active.  The entry guard of rewriteAofFiles as a state machine over the two flags of
+   the Aof struct (idle / rewriting / wait-rewrite; source switch: the guard tests isRewriting — read from the source
+   text by checks/C16.py, and the flag values are read from the real struct at every crash point).  For EVERY sequence
+   of requests (size threshold, admin command, start-up, barrier), follower rotations and completions: never two active
+   compactions, and isRewriting says exactly whether one is active. *)
+Theorem C16_at_most_one_compaction :
+  forall evs : list gevent,
+  let g := grun true evs g_idle in
+  (g_active g <= 1)%nat /\ (g_rewriting g = true <-> g_active g = 1%nat).
+Proof. exact guard_at_most_one. Qed.
+Goal True. idtac "ASSUMPTIONS-OF C16_at_most_one_compaction". Abort.
+Print Assumptions C16_at_most_one_compaction.
+Example C16_at_most_one_compaction_nonvacuous :
+  grun true [GRequest; GRequest; GDefer; GFinish; GRequest] g_idle = mkguard true false 1.
+Proof. reflexivity. Qed.
+
+(* (c) A request that arrives while a compaction runs changes NOTHING (no flag, no second compaction: the code drops it,
+   it does not defer it); in every other state it starts one and clears the wait flag. *)
+Theorem C16_request_while_rewriting_is_dropped :
+  forall g : guard,
+  (g_rewriting g = true -> gstep true g GRequest = g /\ gmark_of true g GRequest = []) /\
+  (g_rewriting g = false -> gstep true g GRequest = mkguard true false (S (g_active g)) /\ gmark_of true g GRequest = [GStarted]).
+Proof. exact (fun g => conj (guard_request_while_rewriting g) (guard_request_when_not_rewriting g)). Qed.
+Goal True. idtac "ASSUMPTIONS-OF C16_request_while_rewriting_is_dropped". Abort.
+Print Assumptions C16_request_while_rewriting_is_dropped.
+Example C16_request_while_rewriting_is_dropped_nonvacuous :
+  g_rewriting (gstep true g_idle GRequest) = true /\ g_rewriting g_idle = false.
+Proof. split; reflexivity. Qed.
+
+(* (c) In every history the compactions that start and the compactions that finish alternate, beginning with a start:
+   a compaction starts only after the previous one has returned (GFinish = the deferred function of rewriteAofFiles,
+   which runs after clearRewriteAofFiles has renamed the result). *)
+Theorem C16_compactions_start_after_the_previous_finished :
+  forall evs : list gevent, alternates true (glog true evs g_idle) = true.
+Proof. exact guard_starts_alternate. Qed.
+Goal True. idtac "ASSUMPTIONS-OF C16_compactions_start_after_the_previous_finished". Abort.
+Print Assumptions C16_compactions_start_after_the_previous_finished.
+Example C16_compactions_start_after_the_previous_finished_nonvacuous :
+  glog true [GRequest; GRequest; GFinish; GRequest] g_idle = [GStarted; GFinished; GStarted].
+Proof. reflexivity. Qed.
+
+(* the switch matters: with the guard on the other flag two requests give two active compactions *)
+Theorem C16_guard_on_other_flag_overlaps :
+  g_active (grun false [GRequest; GRequest] g_idle) = 2%nat /\ alternates true (glog false [GRequest; GRequest] g_idle) = false.
+Proof. exact guard_on_other_flag_overlaps. Qed.
+Goal True. idtac "ASSUMPTIONS-OF C16_guard_on_other_flag_overlaps". Abort.
+Print Assumptions C16_guard_on_other_flag_overlaps.
+
+(* (d) Appends during the rewrite go to a file that is not among the inputs: findRewriteAofFiles never returns the
+   current append file or a later one (nor their value files), and every mutation of the compaction goroutine stays
+   inside its footprint (tmp pair, rewrite pair, append files with a smaller index). *)
+Theorem C16_appends_avoid_the_compaction_inputs :
+  forall (has_lock : bytes -> option bytes -> bool) (fx : fixes) (bs : nat) (d : dir) (cur : N) (now : Z),
+  (forall l i, rewrite_inputs d cur = Some l -> cur <= i -> ~ In (FAppend i) l /\ ~ In (FAppendDat i) (map dat_of l)) /\
+  Forall (local_mut cur) (compact_steps has_lock fx bs false d cur now) /\
+  (forall k f, local_file cur f = false -> dget (crash_after has_lock fx bs false d cur now k) f = dget d f) /\
+  compact_steps has_lock fx bs true d cur now =
+    [MPut (FAppend (cur + 1)) header; MPut (FAppendDat (cur + 1)) []] ++
+    compact_steps has_lock fx bs false (run_steps d [MPut (FAppend (cur + 1)) header; MPut (FAppendDat (cur + 1)) []]) (cur + 1) now.
+Proof.
+  exact (fun has_lock fx bs d cur now =>
+    conj (fun l i => rewrite_inputs_exclude_current d cur l i)
+   (conj (compact_steps_local has_lock fx bs d cur now)
+   (conj (fun k f => compaction_frame has_lock fx bs d cur now k f)
+         (compact_steps_rotate has_lock fx bs d cur now)))).
+Qed.
+Goal True. idtac "ASSUMPTIONS-OF C16_appends_avoid_the_compaction_inputs". Abort.
+Print Assumptions C16_appends_avoid_the_compaction_inputs.
+Example C16_appends_avoid_the_compaction_inputs_nonvacuous :
+  rewrite_inputs (run_steps c_dir [MPut (FAppend 2) header; MPut (FAppendDat 2) []]) 2 = Some [FAppend 1] /\
+  length (compact_steps all_live today 4096 false (run_steps c_dir [MPut (FAppend 2) header; MPut (FAppendDat 2) []]) 2 w_now) = 6%nat.
+Proof. split; vm_compute; reflexivity. Qed.
+
+(* (d) Compaction at a busy moment.  [fs]: what the rest of the server does to the directory meanwhile (flushed appends to
+   the current or a newer append file, rotations); [ms]: ANY interleaving of the compaction goroutine's mutations with
+   them.  The directory is the one of the quiescent compaction with the appends on top (= the appends first, then the
+   compaction), and EVERY crash image of the busy run is a crash image of the quiescent compaction with a prefix of the
+   appends on top; a restart recovers the same from both. *)
+Theorem C16_busy_compaction_is_quiescent_compaction_plus_appends :
+  forall (has_lock : bytes -> option bytes -> bool) (fx : fixes) (bs rbs : nat) (d : dir) (cur : N) (now : Z)
+         (fs ms : list mutation),
+  let cs := compact_steps has_lock fx bs false d cur now in
+  Forall (fun f => foreign_mut cur f = true) fs -> merge cs fs ms ->
+  dir_equiv (run_steps d ms) (run_steps (compact has_lock fx bs false d cur now) fs) /\
+  dir_equiv (run_steps d ms) (run_steps (run_steps d fs) cs) /\
+  forall n, exists k j,
+    dir_equiv (run_steps d (firstn n ms)) (run_steps (crash_after has_lock fx bs false d cur now k) (firstn j fs)) /\
+    forall rnow, recover fx rbs (run_steps d (firstn n ms)) rnow
+                 = recover fx rbs (run_steps (crash_after has_lock fx bs false d cur now k) (firstn j fs)) rnow.
+Proof. exact busy_compaction. Qed.
+Goal True. idtac "ASSUMPTIONS-OF C16_busy_compaction_is_quiescent_compaction_plus_appends". Abort.
+Print Assumptions C16_busy_compaction_is_quiescent_compaction_plus_appends.
+Example C16_busy_compaction_is_quiescent_compaction_plus_appends_nonvacuous :
+  let d := run_steps c_dir [MPut (FAppend 2) header; MPut (FAppendDat 2) []] in
+  let fs := [MPut (FAppend 2) (header ++ w_rec 3 0); MPut (FAppend 3) header] in
+  Forall (fun f => foreign_mut 2 f = true) fs /\
+  exists ms, merge (compact_steps all_live today 4096 false d 2 w_now) fs ms /\ length ms = 8%nat /\
+             recover today 4096 (run_steps d ms) w_now
+             = ROk [(mark_rewrited (w_rec 1 0), None); (mark_rewrited (w_rec 2 0), None); (w_rec 3 0, None)].
+Proof.
+  cbv zeta. split; [repeat constructor|].
+  eexists. split; [|split].
+  - vm_compute. apply merge_l. apply merge_r. apply merge_l. apply merge_l. apply merge_r. apply merge_l. apply merge_l. apply merge_l. apply merge_nil.
+  - reflexivity.
+  - vm_compute. reflexivity.
+Qed.
